@@ -42,6 +42,7 @@ func main() {
 	flag.BoolVar(&cover, "cover", false, "extra vacuity (cover) checks")
 	locks := flag.Bool("locks", false, "generate lock-discipline obligations (guarded fields, lock balance, wait levels)")
 	kinds := flag.String("kinds", "", "regexp: keep only obligations whose kind matches (after generation)")
+	noretry := flag.String("noretry", "", "regexp: obligation names that are not retried (listed known findings)")
 	flag.Parse()
 	if *lib == "" {
 		exe, _ := os.Executable()
@@ -59,6 +60,9 @@ func main() {
 		os.Exit(2)
 	}
 	eng.lockMode = *locks
+	if *noretry != "" {
+		noRetry = regexp.MustCompile(*noretry)
+	}
 	if err := eng.loadAllContracts(*lib); err != nil {
 		fmt.Fprintln(os.Stderr, "govc: contracts:", err)
 		os.Exit(2)
@@ -241,6 +245,24 @@ func main() {
 		for _, ob := range obs {
 			if *dumpAll || (ob.Status != "discharged" && ob.Status != "cover-ok") {
 				os.WriteFile(filepath.Join(*dump, sanitize(ob.Name)+".smt2"), []byte(ob.Text(eng.prelude, true)), 0644)
+			}
+		}
+	}
+	// an exit that cannot be reached (e.g. the error return after library calls that cannot fail in
+	// the model) is not a vacuity problem as long as some exit of the function is reachable
+	for _, f := range o.Functions {
+		anyOK := false
+		for _, ob := range f.Obligations {
+			if ob.Kind == "cover.exit" && ob.Status == "cover-ok" {
+				anyOK = true
+			}
+		}
+		if anyOK {
+			for _, ob := range f.Obligations {
+				if ob.Kind == "cover.exit" && ob.Status == "cover-failed" {
+					ob.Status = "cover-ok"
+					ob.Detail = "this exit is unreachable under the contracts in force; another exit of the function is reachable"
+				}
 			}
 		}
 	}
